@@ -12,11 +12,12 @@ TEXT = ('(a) cbmc on the layout arithmetic of the four block kinds and their vie
 def run(ctx):
     q = ctx.quick()
     only = getattr(ctx, 'only', None)
-    combos = [(1, 3), (4, 5), (8, 1), (24, 4), (32, 5), (40, 3), (64, 8), (4096, 3)] if q else [(e, r) for e in (1, 4, 8, 24, 32, 40, 64, 4096) for r in (1, 3, 4, 5, 8)]
+    combos = [(1, 3), (4, 5), (8, 1), (24, 4), (32, 5), (40, 3), (64, 8), (4096, 3)] if q else [(e, r) for e in (1, 4, 8, 24, 32, 40, 64) for r in (1, 3, 4, 5, 8)] + [(4096, 1), (4096, 3), (4096, 8)]
     specs = [dict(name='layout.e%d.r%d' % (e, r), wrapper='w_c14_layout.cpp', wdefs=['ESZ=%d' % e, 'NROWS=%d' % r], harness='h_c14_layout.c', entry='h_c14_layout',
                   hdefs=['ESZ=%d' % e, 'NROWS=%d' % r, 'NMAX=%d' % (10000 if e < 4096 else 1000)], umax=20, timeout=900, note='all item counts 0..%d, all (item,row) pairs' % (10000 if e < 4096 else 1000), mem_gb=(12 if e < 4096 else 30), u0=8) for e, r in combos]
     if only: specs = [x for x in specs if only in x['name']]
-    e1.run_many(ctx, specs, jobs=8)
+    e1.run_many(ctx, [x for x in specs if '.e4096.' not in x['name']], jobs=8)
+    e1.run_many(ctx, [x for x in specs if '.e4096.' in x['name']], jobs=2)       # 4096-byte elements need ~15 GB each in cbmc
     S = []
     for t, nm in ((0, 'particle-group tuple: scalar+vector+vector<long>+multiR<double,3>'), (1, 'cell-group tuple: scalar+vector'), (2, 'vector<1 byte>+multiV<float,5>+multiR<float,4>'), (3, 'vector<4096 bytes>')):
         S.append(dict(name='memblock.tuple%d' % t, wrapper='w_memblock.cpp', defines=['TUPLE=%d' % t], entry='h_memblock', args=[0, 1, 0, 0, 0, 0], time_limit=300 if q else 1800,
